@@ -3,6 +3,7 @@ pub use vp_base::{adapt, obj, tape, toy};
 pub mod checks;
 pub mod common;
 pub mod engine;
+pub mod known;
 pub mod model;
 pub mod registry;
 pub mod selfcheck;
